@@ -50,17 +50,17 @@ const (
 	OpFLt
 	OpFLe
 	OpFIsNaN
-	OpFFromBits   // BitVec64 -> Float64 (reinterpretation)
-	OpFFromSInt   // signed BitVec -> Float64 RNE
-	OpFFromUInt   // unsigned BitVec -> Float64 RNE
-	OpFToSInt     // Float64 -> signed BitVec W (RTZ); meaning unspecified when out of range
-	OpFToBitsEq   // Bool: (= ((_ to_fp 11 53) bv) f): bits bv encode float f
-	OpUF          // uninterpreted function Name over Args, result width W (FPW for float)
-	OpAtomEq      // unused placeholder
+	OpFFromBits // BitVec64 -> Float64 (reinterpretation)
+	OpFFromSInt // signed BitVec -> Float64 RNE
+	OpFFromUInt // unsigned BitVec -> Float64 RNE
+	OpFToSInt   // Float64 -> signed BitVec W (RTZ); meaning unspecified when out of range
+	OpFToBitsEq // Bool: (= ((_ to_fp 11 53) bv) f): bits bv encode float f
+	OpUF        // uninterpreted function Name over Args, result width W (FPW for float)
+	OpAtomEq    // unused placeholder
 	OpFAbs
 	OpFSqrt
-	OpFToF32      // round to float32 and back (models float32 conversion)
-	OpFSame       // Bool: SMT equality on the FP sort (NaN = NaN, +0 != -0): "prints alike"
+	OpFToF32 // round to float32 and back (models float32 conversion)
+	OpFSame  // Bool: SMT equality on the FP sort (NaN = NaN, +0 != -0): "prints alike"
 )
 
 var opSMT = map[Op]string{
